@@ -41,3 +41,33 @@ def lexer_yield_rule(repo, res):
                             "a ValueError thrown into the generator by the parser surfaces as a plain ValueError "
                             "that the try-each-production loop swallows",
                             where=f"pvl/lexer.py:{y.lineno}"))
+
+
+def triage_aggregation_cls(repo, res, t1_findings):
+    """The plain ValueError at the end of aggregation_cls() is raised after the
+    begin statement was consumed.  It is infeasible iff every begin keyword the
+    token predicate accepts (aggregation_keywords) is also in group_keywords or
+    object_keywords -- rule TB1.  The triage is conditional on TB1."""
+    from .. import tables
+    bad = [c for c in tables.grammar_classes(repo) if tables.tb1(repo, c)]
+    for f in list(t1_findings):
+        if f.function.endswith(".aggregation_cls") and f.anchor.startswith("raise ValueError"):
+            if not bad:
+                res.triage(f, "infeasible because TB1 holds for every grammar class: a token accepted by "
+                              "is_begin_aggregation() (aggregation_keywords) is always found in group_keywords or "
+                              "object_keywords, so aggregation_cls() cannot reach its final raise")
+            else:
+                f.message += f" -- feasible because rule TB1 fails for {', '.join(bad)} (derived keyword tables are stale)"
+
+
+def triage_tb3(repo, res):
+    """NotImplementedError in lex_multichar_comments is infeasible iff TB3 holds."""
+    from .. import tables
+    problems = tables.tb3(repo)
+    for f in list(res.findings):
+        if f.key == tables.TB3_TRIAGE_KEY:
+            if not problems:
+                res.triage(f, "infeasible because TB3 holds: every multi-character comment pair of every grammar "
+                              "class is in lex_multichar_comments.allowed_pairs")
+            else:
+                f.message += f" -- feasible because TB3 fails: {problems}"
